@@ -557,7 +557,17 @@ let () =
                          let (wa, ga) = match Hashtbl.find_opt acc slot with Some x -> x | None -> ([], []) in
                          let wa = wa @ whs and ga = ga @ gh in
                          Hashtbl.replace acc slot (wa, ga);
-                         if (wend || gend) && List.sort compare wa <> List.sort compare ga then
+                         (* decided by the extracted check_hits (C17.check_hits_sound / _complete: true exactly when the
+                            two lists are permutations of each other); a hit of Python that is not "pos,bits" counts
+                            as a mismatch *)
+                         let hit_of_string h = match String.split_on_char ',' h with
+                           | [p; x] -> (try Some (z_of_string p, z_of_string x) with _ -> None)
+                           | _ -> None in
+                         let same_hits a b =
+                           let a' = List.map hit_of_string a and b' = List.map hit_of_string b in
+                           if List.mem None a' || List.mem None b' then false
+                           else check_hits (List.filter_map (fun x -> x) a') (List.filter_map (fun x -> x) b') in
+                         if (wend || gend) && not (same_hits wa ga) then
                            set "PROPFAIL" (Printf.sprintf "%s hit-set-mismatch core=%s python=%s" where
                                              (short (String.concat "/" (List.sort compare wa))) (short (String.concat "/" (List.sort compare ga))))
                          else if "V:" ^ want_s <> "V:" ^ g then
@@ -578,9 +588,13 @@ let () =
                             that only the conversion refuses, e.g. TRANSFAC without counts, is no reader error) *)
                          let want_items = cut_items want_items in
                          let gi = List.map canon got_items in
-                         if List.length gi <> List.length want_items then
+                         (* decided by the extracted check_items (C17.check_items_sound); the branches below only
+                            word the detail *)
+                         if not (check_items String.equal want_items gi) && List.length gi <> List.length want_items then
                            set "PROPFAIL" (Printf.sprintf "%s load-items-mismatch core=%d items python=%d items: %s" where
                                              (List.length want_items) (List.length gi) (short g))
+                         else if List.length gi <> List.length want_items then
+                           set "DIFF" (where ^ " check_items accepted lists of different lengths (driver bug)")
                          else
                            List.iteri (fun k (w, o) ->
                                if not (check_C17 String.equal w o) then
